@@ -53,8 +53,16 @@ type Replay struct {
 	Shape     string           `json:"shape"`
 	Observers []string         `json:"observers"`
 	Schedule  []verifsched.Dev `json:"schedule"`
-	RacePass  bool             `json:"race_pass,omitempty"`
-	Tier      string           `json:"tier,omitempty"`
+	// Cold: a first-use execution (see cold.go): replay it before anything
+	// else in a fresh process.
+	Cold     bool   `json:"cold,omitempty"`
+	RacePass bool   `json:"race_pass,omitempty"`
+	Tier     string `json:"tier,omitempty"`
+}
+
+type soloKey struct {
+	shape *driver.Shape
+	obs   int
 }
 
 type soloInfo struct {
@@ -81,7 +89,7 @@ type Explorer struct {
 	c *core.Ctx
 	r *core.Result
 
-	solo map[[2]int]*soloInfo // (shape index, observer index)
+	solo map[soloKey]*soloInfo
 
 	// current scenario
 	sc        *scenario
@@ -117,7 +125,7 @@ func (e *Explorer) stop() bool {
 }
 
 // setScenario prepares bodies and expectations.
-func (e *Explorer) setScenario(sc *scenario, si int) bool {
+func (e *Explorer) setScenario(sc *scenario) bool {
 	e.sc = sc
 	n := len(sc.obs)
 	e.res = make([]string, n)
@@ -127,7 +135,7 @@ func (e *Explorer) setScenario(sc *scenario, si int) bool {
 	e.tuples = map[string]int64{}
 	e.sampled = false
 	for i := range sc.obs {
-		s := e.soloOf(si, sc.oidx[i])
+		s := e.soloOf(sc.shape, sc.oidx[i])
 		if !s.ok {
 			return false
 		}
@@ -160,21 +168,24 @@ func (e *Explorer) exec(depth int) *verifsched.Exec {
 // soloOf computes (once) what an observer returns when it runs alone on a
 // fresh error of the shape: under the scheduler (twice: self-check of
 // determinism, and its point count) and free.
-func (e *Explorer) soloOf(si, oi int) *soloInfo {
-	k := [2]int{si, oi}
+func (e *Explorer) soloOf(sh *driver.Shape, oi int) *soloInfo {
+	k := soloKey{sh, oi}
 	if s := e.solo[k]; s != nil {
 		return s
 	}
 	s := &soloInfo{}
 	e.solo[k] = s
-	sh, o := driver.Shapes[si], driver.Observers[oi]
+	o := driver.Observers[oi]
 	var shared error
 	var res string
 	body := []func(){func() { res = o.Run(shared) }}
 	var x verifsched.Exec
 	var first string
-	var firstSteps int
-	for rep := 0; rep < 2; rep++ {
+	var steps [3]int
+	// Run 0 may be the first use of a type in this process: a (correct)
+	// lazily-filled cache makes it longer than later runs. The result must
+	// be the same every time; the step count must be stable from run 1 on.
+	for rep := 0; rep < 3; rep++ {
 		shared, res = sh.Build(), unset
 		verifsched.Run(body, nil, &x)
 		e.r.Count("solo_runs", 1)
@@ -185,17 +196,29 @@ func (e *Explorer) soloOf(si, oi int) *soloInfo {
 		if x.Panics[0] != "" {
 			// a panic without any concurrency is not C18's business, but
 			// nothing can be compared against it.
-			e.r.Violate(fmt.Sprintf("panic|%s|%s", sh.Name, o.Name),
+			e.r.Violate(fmt.Sprintf("panic|%s|%s", schedmc.ShapeFamily(sh.Name), o.Name),
 				fmt.Sprintf("observer %s panics on shape %s (%s) even when run alone: %s", o.Name, sh.Name, sh.Desc, driver.Short(x.Panics[0], 1500)),
 				Replay{Shape: sh.Name, Observers: []string{o.Name}})
 			return s
 		}
+		steps[rep] = x.Steps[0]
 		if rep == 0 {
-			first, firstSteps = res, x.Steps[0]
-		} else if res != first || x.Steps[0] != firstSteps {
-			e.r.HarnessError("solo run of %s on %s is not deterministic: steps %d vs %d; %s", o.Name, sh.Name, firstSteps, x.Steps[0], driver.FirstDiff(res, first))
+			first = res
+		} else if res != first {
+			e.r.HarnessError("solo run of %s on %s is not deterministic: %s", o.Name, sh.Name, driver.FirstDiff(res, first))
 			return s
 		}
+		if rep == 1 && steps[1] == steps[0] {
+			steps[2] = steps[1]
+			break
+		}
+	}
+	if steps[2] != steps[1] {
+		e.r.HarnessError("solo run of %s on %s: step count not stable after warm-up: %v", o.Name, sh.Name, steps)
+		return s
+	}
+	if steps[0] != steps[1] {
+		e.r.Count("solo_first_run_step_count_differs", 1)
 	}
 	// free run (scheduler inactive): the instrumentation must not change
 	// the result.
@@ -203,11 +226,11 @@ func (e *Explorer) soloOf(si, oi int) *soloInfo {
 		e.r.HarnessError("observer %s on %s: result under the scheduler differs from the free run: %s", o.Name, sh.Name, driver.FirstDiff(first, free))
 		return s
 	}
-	s.res, s.steps, s.ok = first, firstSteps, true
-	if e.c.Shard == 0 {
-		e.r.Count("points_"+o.Name, int64(firstSteps))
+	s.res, s.steps, s.ok = first, steps[2], true
+	if e.c.Shard == 0 && driver.ShapeByName(sh.Name) != nil {
+		e.r.Count("points_"+o.Name, int64(s.steps))
 		if os.Getenv("VERIF_VERBOSE") != "" {
-			fmt.Fprintf(os.Stderr, "solo %-14s %-12s %5d points\n", sh.Name, o.Name, firstSteps)
+			fmt.Fprintf(os.Stderr, "solo %-14s %-12s %5d points\n", sh.Name, o.Name, s.steps)
 		}
 	}
 	return s
@@ -271,7 +294,7 @@ func (e *Explorer) check(x *verifsched.Exec, devs []verifsched.Dev) {
 	}
 	h := sha256.Sum256([]byte(strings.Join(e.res, "\x01")))
 	e.tuples[hex.EncodeToString(h[:4])]++
-	key := fmt.Sprintf("%s|%s", clause, e.sc.name)
+	key := fmt.Sprintf("%s|%s", clause, schedmc.ShapeFamily(e.sc.name))
 	sched := append([]verifsched.Dev{}, devs...)
 	payload := Replay{Shape: e.sc.shape.Name, Observers: e.obsNames(), Schedule: sched}
 	full := fmt.Sprintf("shape %s = %s; threads %v; %d preemption(s); schedule (deviations from run-to-completion) %v:\n%s  %s",
@@ -311,15 +334,6 @@ func (e *Explorer) obsNames() []string {
 		s = append(s, o.Name)
 	}
 	return s
-}
-
-func (e *Explorer) shapeIdx() int {
-	for i, s := range driver.Shapes {
-		if s == e.sc.shape {
-			return i
-		}
-	}
-	return -1
 }
 
 // account adds one execution to the evidence.
@@ -417,8 +431,8 @@ func (e *Explorer) explore(devs []verifsched.Dev, cost, depth int) {
 
 // runScenario explores one scenario up to bound; executions with fewer
 // than minNew preemptions were reported by an earlier pass.
-func (e *Explorer) runScenario(sc *scenario, si, bound, minNew int) {
-	if !e.setScenario(sc, si) {
+func (e *Explorer) runScenario(sc *scenario, bound, minNew int) {
+	if !e.setScenario(sc) {
 		return
 	}
 	e.bound, e.minNew = bound, minNew
@@ -431,9 +445,8 @@ func (e *Explorer) runScenario(sc *scenario, si, bound, minNew int) {
 	}
 }
 
-func scenarios(e *Explorer, thorough bool) (pairs, triples []*scenario, sidx map[*scenario]int) {
-	sidx = map[*scenario]int{}
-	for si, sh := range driver.Shapes {
+func scenarios(e *Explorer, thorough bool) (pairs, triples []*scenario) {
+	for _, sh := range driver.Shapes {
 		for a := range driver.Observers {
 			for b := a; b < len(driver.Observers); b++ {
 				oa, ob := driver.Observers[a], driver.Observers[b]
@@ -441,14 +454,13 @@ func scenarios(e *Explorer, thorough bool) (pairs, triples []*scenario, sidx map
 					name: fmt.Sprintf("%s|%s+%s", sh.Name, oa.Name, ob.Name), bound: 1, symmetric: a == b}
 				if thorough {
 					sc.bound = 2
-					pa, pb := e.soloOf(si, a).steps, e.soloOf(si, b).steps
+					pa, pb := e.soloOf(sh, a).steps, e.soloOf(sh, b).steps
 					sc.cost = 2 * int64(pa) * int64(pb)
 					if (oa.Name == "Sentry" && pb > sentryPartnerMax) || (ob.Name == "Sentry" && pa > sentryPartnerMax) ||
 						int64(pa)*int64(pb) > pairProductMax {
 						sc.bound = 1
 					}
 				}
-				sidx[sc] = si
 				pairs = append(pairs, sc)
 			}
 		}
@@ -457,7 +469,7 @@ func scenarios(e *Explorer, thorough bool) (pairs, triples []*scenario, sidx map
 		}
 		var small []int
 		for a := range driver.Observers {
-			if s := e.soloOf(si, a); s.ok && s.steps <= tripleMax {
+			if s := e.soloOf(sh, a); s.ok && s.steps <= tripleMax {
 				small = append(small, a)
 			}
 		}
@@ -472,7 +484,6 @@ func scenarios(e *Explorer, thorough bool) (pairs, triples []*scenario, sidx map
 						names = append(names, driver.Observers[a].Name)
 					}
 					sc.name = sh.Name + "|" + strings.Join(names, "+")
-					sidx[sc] = si
 					triples = append(triples, sc)
 				}
 			}
@@ -493,7 +504,7 @@ func Run(c *core.Ctx, r *core.Result) {
 			defer pprof.StopCPUProfile()
 		}
 	}
-	e := &Explorer{c: c, r: r, solo: map[[2]int]*soloInfo{}}
+	e := &Explorer{c: c, r: r, solo: map[soloKey]*soloInfo{}}
 	r.Rule = "for every explored schedule of N threads each running one read-only observer on one shared error: every observer returns " +
 		"exactly what it returns when run alone on a fresh identical error; no thread panics; no deadlock"
 	r.Assumptions = append(r.Assumptions,
@@ -501,12 +512,18 @@ func Run(c *core.Ctx, r *core.Result) {
 		"interleavings finer than a statement (n++ on shared state, torn multi-word writes) are invisible to the cooperative scheduler; they are the job of the auxiliary -race pass",
 		"observer results are rendered pointer-free; the shared error is built at one call site on one goroutine so that its captured stack is identical in every execution")
 
+	r.Assumptions = append(r.Assumptions,
+		"the exhaustive exploration runs in a warm process (solo baselines and earlier schedules have filled any lazily-initialised package-level state); "+
+			"first-use behaviour is only SAMPLED: per worker process "+fmt.Sprint(len(driver.FreshTypes))+" two-thread round-robin executions on never-seen generic types, run before any baseline "+
+			"(a failure there is confirmed in fresh processes), plus the cold phase of the race pass")
 	if c.Replay != nil {
 		replay(e, c, r)
 		return
 	}
+	// first-use executions: before anything else touches the library.
+	e.coldPass()
 	thorough := c.Thorough()
-	pairs, triples, sidx := scenarios(e, thorough)
+	pairs, triples := scenarios(e, thorough)
 
 	done1, done2, done3 := 0, 0, 0
 	// pass 1: every pair at bound 1 (includes bound 0).
@@ -516,7 +533,7 @@ func Run(c *core.Ctx, r *core.Result) {
 		}
 		// each worker contributes a sample from a different scenario.
 		e.wantSample = i == (c.Shard*83+7)%len(pairs)
-		e.runScenario(sc, sidx[sc], 1, 0)
+		e.runScenario(sc, 1, 0)
 		if !e.stopped {
 			done1++
 		}
@@ -537,7 +554,7 @@ func Run(c *core.Ctx, r *core.Result) {
 			if e.stop() {
 				continue
 			}
-			e.runScenario(sc, sidx[sc], 2, 2)
+			e.runScenario(sc, 2, 2)
 			if !e.stopped {
 				done2++
 			}
@@ -547,7 +564,7 @@ func Run(c *core.Ctx, r *core.Result) {
 			if e.stop() {
 				break
 			}
-			e.runScenario(sc, sidx[sc], 2, 0)
+			e.runScenario(sc, 2, 0)
 			if !e.stopped {
 				done3++
 			}
@@ -559,8 +576,8 @@ func Run(c *core.Ctx, r *core.Result) {
 	r.Count("executions_including_solo_and_replays", e.execsRun)
 	var ps []string
 	for k, s := range e.solo {
-		if k[0] == 0 {
-			ps = append(ps, fmt.Sprintf("%s=%d", driver.Observers[k[1]].Name, s.steps))
+		if k.shape == driver.Shapes[0] {
+			ps = append(ps, fmt.Sprintf("%s=%d", driver.Observers[k.obs].Name, s.steps))
 		}
 	}
 	sort.Strings(ps)
@@ -596,7 +613,14 @@ func replay(e *Explorer, c *core.Ctx, r *core.Result) {
 		r.States, r.Evaluations = 1, 1
 		return
 	}
+	if p.Cold {
+		replayCold(e, p)
+		return
+	}
 	sh := driver.ShapeByName(p.Shape)
+	if sh == nil {
+		sh = driver.FreshShapeByName(p.Shape)
+	}
 	if sh == nil {
 		r.HarnessError("replay: unknown shape %q", p.Shape)
 		return
@@ -616,9 +640,7 @@ func replay(e *Explorer, c *core.Ctx, r *core.Result) {
 		}
 	}
 	sc.name = sh.Name + "|" + strings.Join(p.Observers, "+")
-	e.sc = sc
-	si := e.shapeIdx()
-	if !e.setScenario(sc, si) {
+	if !e.setScenario(sc) {
 		return
 	}
 	x := e.exec(0)
